@@ -696,6 +696,18 @@ def _run(ctx):
             r5.fail("C17.R5:decimals-origin", ph.path, where, "saved asset_decimals ⊢ %s, expected the stored value or the message's array" % sorted(dec))
         else:
             r5.site("saved record = stored record with asset_decimals ⊢ {stored, message array}")
+        # a success exit that skips the write may depend on the stored assets and the message only (no asset matched): one
+        # gated by anything the handler *queries* (LP supply, balances) acknowledges the factory's update without applying it,
+        # and the factory's record then differs from the pair's description (seeded/C16-m24)
+        from .. import lemmas as _lem
+        for (b_, i_, cls_, v_) in common.ok_exit_blocks(P, ph):
+            if b_ == sb or pbody.block_dominates(sb, b_):
+                continue
+            cs_ = _lem.cond_strings(ctx, common.control_conditions(P, ph, b_))
+            ext_ = sorted(c_ for c_ in cs_ if re.search(r"C:[^@]*(query|Querier|querier)[^@]*@", c_))
+            if ext_:
+                r5.fail("C17.R5:skip-gated-by-query", ph.path, common.span_of_block_term(ph, b_),
+                        "a success exit skips the PAIR_INFO write under a condition on queried state (%s): the update is acknowledged but not applied" % ext_[0][:160])
         # the function whose body decides the assignment: the handler, or the closure of `PAIR_INFO.update(storage, |old| ..)`
         sf, sbody, sstored = ph, pbody, stored
         t_sb = pbody.blocks[sb]["term"]
